@@ -20,12 +20,12 @@ pub open spec fn domains_ok(d: &StarkDomains, t: nat, c: nat) -> bool {
 }
 
 impl StarkDomains {
-//@repo crates/air/src/domains.rs fn StarkDomains::new props=C01,C02,C12
+//@repo crates/air/src/domains.rs fn StarkDomains::new props=C01,C02,C10,C12
     pub fn new(log_trace_domain_size: Felt, log_n_cosets: Felt) -> (r: Self)
         requires
             log_trace_domain_size@ + log_n_cosets@ <= 192, // [C18:domains-new-needs-exponent<=192]
         ensures
-            domains_ok(&r, log_trace_domain_size@, log_n_cosets@), // [C01,C02,C12,C18:sizes-and-generators-as-specified]
+            domains_ok(&r, log_trace_domain_size@, log_n_cosets@), // [C01,C02,C10,C12,C18:sizes-and-generators-as-specified]
     {
         proof {
             lemma_pow2_251_lt_p();
